@@ -47,6 +47,9 @@ type flow struct {
 	g      *cfg.CFG
 	events [][]event // per block, in order
 	params map[*types.Var]int
+	// elemAlias: locals defined as `p := &S[i]` for a record slice S of the receiver: a read or write through
+	// p is a read or write of S (judged by the locks held where it happens)
+	elemAlias map[types.Object]Path
 }
 
 func (u *Unit) newFlow(f *Func) *flow {
@@ -60,6 +63,33 @@ func (u *Unit) newFlow(f *Func) *flow {
 		return true
 	}
 	fl.g = cfg.New(f.Decl.Body, mayReturn)
+	fl.elemAlias = map[types.Object]Path{}
+	ast.Inspect(f.Decl.Body, func(n ast.Node) bool {
+		as, ok := n.(*ast.AssignStmt)
+		if !ok || len(as.Lhs) != len(as.Rhs) {
+			return true
+		}
+		for i, r := range as.Rhs {
+			ue, ok := ast.Unparen(r).(*ast.UnaryExpr)
+			if !ok || ue.Op != token.AND {
+				continue
+			}
+			ix, ok := ast.Unparen(ue.X).(*ast.IndexExpr)
+			if !ok {
+				continue
+			}
+			sp, ok := fl.isStorage(ix.X)
+			if !ok {
+				continue
+			}
+			if id, ok := ast.Unparen(as.Lhs[i]).(*ast.Ident); ok {
+				if o := u.Info.ObjectOf(id); o != nil {
+					fl.elemAlias[o] = sp
+				}
+			}
+		}
+		return true
+	})
 	if f.Decl.Type.Params != nil {
 		i := 0
 		for _, fld := range f.Decl.Type.Params.List {
@@ -255,6 +285,12 @@ func (fl *flow) collect(n ast.Node) []event {
 				add(event{kind: evEscape, path: "recv", node: x, detail: "the whole mock is copied (*receiver)"})
 				return
 			}
+			if id, ok := ast.Unparen(x.X).(*ast.Ident); ok {
+				if sp, ok := fl.elemAlias[u.Info.ObjectOf(id)]; ok {
+					add(event{kind: evRead, path: sp, node: x, detail: "element through a pointer"})
+					return
+				}
+			}
 			visitExpr(x.X)
 		case *ast.BinaryExpr:
 			visitExpr(x.X)
@@ -263,6 +299,12 @@ func (fl *flow) collect(n ast.Node) []event {
 			if sp, ok := fl.isStorage(x); ok {
 				add(event{kind: evRead, path: sp, node: x, detail: "value"})
 				return
+			}
+			if id, ok := ast.Unparen(x.X).(*ast.Ident); ok {
+				if sp, ok := fl.elemAlias[u.Info.ObjectOf(id)]; ok {
+					add(event{kind: evRead, path: sp, node: x, detail: "element through a pointer"})
+					return
+				}
 			}
 			// a struct-typed receiver field used as a whole value (not as the operand of a further selection)
 			if p, ok := u.recvPath(x, fl.f.Recv); ok && p != "recv" {
@@ -333,6 +375,22 @@ func (fl *flow) collect(n ast.Node) []event {
 						add(event{kind: evWrite, path: sp, node: s, detail: "index-assign"})
 						visitExpr(ix.Index)
 						continue
+					}
+				}
+				if se, ok := lu.(*ast.SelectorExpr); ok {
+					if id, ok := ast.Unparen(se.X).(*ast.Ident); ok {
+						if sp, ok := fl.elemAlias[u.Info.ObjectOf(id)]; ok {
+							add(event{kind: evWrite, path: sp, node: s, detail: "element-through-pointer"})
+							continue
+						}
+					}
+				}
+				if st, ok := lu.(*ast.StarExpr); ok {
+					if id, ok := ast.Unparen(st.X).(*ast.Ident); ok {
+						if sp, ok := fl.elemAlias[u.Info.ObjectOf(id)]; ok {
+							add(event{kind: evWrite, path: sp, node: s, detail: "element-through-pointer"})
+							continue
+						}
 					}
 				}
 				if se, ok := lu.(*ast.SelectorExpr); ok {
